@@ -74,6 +74,7 @@ def load_scn_file(path, prefix=""):
                 d["raw"] = int(p[1])
                 d["reap"] = None if p[2] == "never" else int(p[2])
                 d["dies"] = p[3] == "1"
+                d["intr"] = int(p[4]) if len(p) > 4 else 0
                 raw = d["raw"]
                 d["expect"] = None if d["te"] is None else ("exited:%d" % (raw >> 8) if raw & 127 == 0 else "signaled:%d" % (raw & 127))
             elif k == "input":
@@ -155,6 +156,10 @@ def run(chk, tier, pid, explicit=None):
         # the cfg(windows) thread-based communicator, same properties, its own model (Lib/WinComm.v)
         import wincomm
         wincomm.run_part(chk, pid, tier)
+    if pid == "C10" and explicit is None:
+        # real children started with every combination of setpgid / detached: which kill(2) calls the signalling methods make
+        import pipeprops
+        pipeprops.c10_real(chk, tier)
     if pid == "C09" and explicit is None:
         # real children that exit with every code / die of every fatal signal: the reported status against the cause
         # and against Lib/Status.v on the raw status the kernel returned
@@ -203,7 +208,9 @@ def replay(chk, path, pid):
         import pipeprops
         chk.obligations(C.props_check(pid, DEPS[pid]))
         C.build_harness()
-        if pid == "C09":
+        if pid == "C10":
+            pipeprops.c10_real(chk, "quick", explicit=[pipeprops.tpl_from_json(lines[1])])
+        elif pid == "C09":
             pipeprops.c09_real(chk, "quick", explicit=[pipeprops.tpl_from_json(lines[1])])
         else:
             pipeprops.c01_real(chk, "quick", explicit=[pipeprops.tpl_from_json(lines[1])])
